@@ -297,6 +297,11 @@ example : let c := genCfg .downOnly
     let s := run c (init [[1,2,3]] [[4]]) [.stepD, .stepD, .stepU, .stepU, .finDown, .stepD, .sendD, .recvD, .stepU, .sendU, .callerClose]
     quiescent c s = true ∧ s.mainDone = true ∧ liveCopiers s = 0 ∧ s.uOut = [1,2,3] ∧ s.dOut = [4] := by decide
 
+/-- the server connects to a channel's target on the goroutine of that logical connection's handler (regenerated): when
+    the session ends meanwhile there is no helper left holding the connection — the handler itself gets it, finds the
+    logical connection dead and closes it (C14_server_closes_target). -/
+theorem C14_target_dial_inline : Gen.muxDialInline = true := by decide
+
 /-- **locks_not_reentrant**: the models treat what a function does between Lock and Unlock of one of the repository's
     mutexes as one atomic step (Upstreams.Connect / discard / Shutdown here).  No function, while holding such a mutex,
     reaches code that locks the same mutex again (regenerated: lexical lock regions, calls resolved by name within the
@@ -318,6 +323,7 @@ end SA.Pipe
 #print axioms SA.Pipe.C14_refused_session_released
 #print axioms SA.Pipe.C14_witness_refusal_waits
 #print axioms SA.Pipe.C14_locks_not_reentrant
+#print axioms SA.Pipe.C14_target_dial_inline
 
 namespace SA.PkgState
 /-- **no_hidden_process_state**: the models of this property are functions of their arguments and of the objects they are
